@@ -47,13 +47,13 @@ A_COMMON = [
     'A6 downstream observer.on_next does not raise back into the handler',
     'A7 the models of builtins / RxPY / stdlib in rxv/pymodels.py, heapmodels.py, strmodels.py, libmodels.py, world.py are trusted (listed per run under trusted_base)',
     'termination of loops is not verified',
-    'glue lemmas L1 (projection), L2 (composition), L3 (well-formedness) over the per-handler contracts: L1 is checked by Lean (lemmas/KT.lean); L2, L3 are paper lemmas (DESIGN section 5)',
+    'glue lemmas over the per-handler contracts: L1 (projection / confinement, lemmas/KT.lean) and L2 (composition) + L5 (folds) (lemmas/L2.lean) are checked by Lean 4; L3 (well-formedness of nested spawners) and L4 (framing uniqueness) are paper lemmas (DESIGN section 5)',
 ]
 
 define('C01', 'multiplexing is transparent', SCALAR + MISC_OPS + PLUMB + TEE + [op('spawners', 'group_by_mux')] + HELP('batch', 'distinct_until_changed', 'math', 'formal', 'misc')
-       + PLAIN('scan', 'flat_map', 'assert_1', 'dispatch') + LEAN('KT') + [bounded('mux', 'check_c01')],
+       + PLAIN('scan', 'flat_map', 'assert_1', 'dispatch') + LEAN('KT', 'L2') + [bounded('mux', 'check_c01')],
        A_COMMON + ['RxPY plain operators (ops.map/filter/first/last/take/to_list/do_action) are assumed to have their documented list semantics'], 'DESIGN 7/C01')
-define('C02', 'state confinement', STORE + SCALAR + SEQ + [op('seqops', 'assert_1_mux')] + SPAWN + TEE + HELP('batch', 'distinct_until_changed', 'formal') + LEAN('KT')
+define('C02', 'state confinement', STORE + SCALAR + SEQ + [op('seqops', 'assert_1_mux')] + SPAWN + TEE + HELP('batch', 'distinct_until_changed', 'formal') + LEAN('KT', 'L2')
        + [bounded('mux', 'check_c02')], A_COMMON, 'DESIGN 7/C02')
 define('C03', 'mux event protocol', SCALAR + SEQ + MISC_OPS + PLUMB + ERRORS + SPAWN + TEE + [bounded('mux', 'check_c03')], A_COMMON, 'DESIGN 7/C03')
 define('C04', 'group_by partitions', [op('spawners', 'group_by_mux'), op('seqops', 'demux_mux_observable')] + STORE + [bounded('mux', 'check_c04')], A_COMMON, 'DESIGN 7/C04')
@@ -62,7 +62,7 @@ define('C06', 'split', [op('spawners', 'split_mux'), op('seqops', 'demux_mux_obs
 define('C07', 'time_split', [op('spawners', 'time_split_mux'), op('seqops', 'demux_mux_observable')] + [bounded('mux', 'check_c07')],
        A_COMMON + ['datetime / timedelta arithmetic is an ordered group (modelled as reals); timeouts are positive'], 'DESIGN 7/C07')
 define('C08', 'tee_map join', TEE + [bounded('mux', 'check_c08')], A_COMMON + ['number of branches: n = 2, 3 (bounded parameter); rx publish/connect assumed'], 'DESIGN 7/C08')
-define('C09', 'scan/reduce algebra', [op('scalar', 'scan_mux')] + PLAIN('scan') + HELP('batch', 'distinct_until_changed', 'math', 'formal', 'misc') + STORE + [bounded('mux', 'check_c09')],
+define('C09', 'scan/reduce algebra', [op('scalar', 'scan_mux')] + LEAN('L2') + PLAIN('scan') + HELP('batch', 'distinct_until_changed', 'math', 'formal', 'misc') + STORE + [bounded('mux', 'check_c09')],
        A_COMMON, 'DESIGN 7/C09')
 define('C10', 'per-key sequence operators', [op('scalar', n) for n in ('first_mux', 'take_mux', 'last_mux')] + SEQ + HELP('batch', 'distinct_until_changed') + PLAIN('to_deque')
        + STORE + [bounded('mux', 'check_c10')], A_COMMON + ['sorted() is a stable sort (trusted)'], 'DESIGN 7/C10')
